@@ -1245,6 +1245,39 @@ pub fn c08_largest_first<S: Src>(_s: &mut S) {
             a += 250;
         }
     }
+    // multi-asset passes: one pass per requested asset and one for lovelace share the list of remaining UTxOs; every offer order
+    // (5! permutations) of two wallets whose tokens sit in the first- and last-offered UTxOs
+    let pol = ScriptHash::from([7u8; 28]);
+    let an = |n: u8| AssetName::new(vec![0x41 + n; 3]).unwrap();
+    let wallets: [Vec<(u64, u64, u64)>; 2] = [
+        vec![(2_000_000, 100, 0), (1_500_000, 0, 0), (1_200_000, 0, 0), (1_100_000, 0, 0), (3_000_000, 50, 0)],
+        vec![(10_000_000, 100, 0), (2_000_000, 0, 40), (2_000_000, 0, 30), (2_000_000, 0, 0), (2_000_000, 50, 50)],
+    ];
+    let wants: [(u64, u64, u64); 2] = [(5_000_000, 120, 0), (3_000_000, 120, 80)];
+    let mut perm: Vec<usize> = vec![0, 1, 2, 3, 4];
+    let mut perms: Vec<Vec<usize>> = Vec::new();
+    fn heap(k: usize, a: &mut Vec<usize>, out: &mut Vec<Vec<usize>>) { if k == 1 { out.push(a.clone()); return; } for i in 0..k { heap(k - 1, a, out); if k % 2 == 0 { a.swap(i, k - 1); } else { a.swap(0, k - 1); } } }
+    heap(5, &mut perm, &mut perms);
+    for (w, wallet) in wallets.iter().enumerate() {
+        for order in &perms {
+            let mk_val = |(c, a, b): (u64, u64, u64)| { let mut v = Value::new(&bn(c)); if a > 0 || b > 0 { let mut ma = MultiAsset::new(); if a > 0 { ma.set_asset(&pol, &an(0), &bn(a)); } if b > 0 { ma.set_asset(&pol, &an(1), &bn(b)); } v.set_multiasset(&ma); } v };
+            let mut tb = TransactionBuilder::new(&config(true));
+            if tb.add_output(&TransactionOutput::new(&addr(0, 50), &mk_val(wants[w]))).is_err() { continue; }
+            let mut utxos = TransactionUnspentOutputs::new();
+            for &k in order { utxos.add(&TransactionUnspentOutput::new(&TransactionInput::new(&TransactionHash::from([k as u8 + 1; 32]), 0), &TransactionOutput::new(&addr(1, 4), &mk_val(wallet[k])))); }
+            let tag = format!("largest-first multi-asset, wallet {}, offer order {:?}", w, order);
+            if tb.add_inputs_from(&utxos, CoinSelectionStrategyCIP2::LargestFirstMultiAsset).is_err() { continue; }
+            let body_inputs = { let mut b = tb.clone(); b.set_fee(&bn(0)); b.build().map(|x| x.inputs()).ok() };
+            let mut chosen: Vec<usize> = Vec::new();
+            if let Some(bi) = &body_inputs { for i in 0..bi.len() { chosen.push(bi.get(i).transaction_id().to_bytes()[0] as usize - 1); } }
+            let (mut c, mut a, mut b) = (0u64, 0u64, 0u64);
+            for &k in &chosen { c += wallet[k].0; a += wallet[k].1; b += wallet[k].2; }
+            let need = wants[w].0 + tb.min_fee().map(u64::from).unwrap_or(0);
+            if c < need || a < wants[w].1 || b < wants[w].2 {
+                failures.push(format!("{}: selection reported success but the inputs actually in the builder {:?} hold ({}, {}, {}), needed ({}, {}, {})", tag, chosen, c, a, b, need, wants[w].1, wants[w].2));
+            }
+        }
+    }
     assert!(failures.is_empty(), "{} largest-first scenarios violate the property; first: {}", failures.len(), failures[0]);
 }
 
@@ -1508,6 +1541,93 @@ pub fn c16_hash_eq<S: Src>(_s: &mut S) {
     for i in 0..12u8 { certs.add(&mk(&khs_tagged, i)); certs.add(&mk(&khs_plain, i)); }
     if certs.len() != 12 { failures.push(format!("12 pool registrations offered in two == forms each: the certificate set holds {}", certs.len())); }
     assert!(failures.is_empty(), "{} hash / equality disagreements; first: {}", failures.len(), failures[0]);
+}
+
+/// scripts that are `==` (same bytes, same hash) but arrived by different routes (built through the API, decoded from CBOR,
+/// read from JSON) offered to the typed witness-set setters and to the builder: each is emitted once
+pub fn c16_ord_eq<S: Src>(_s: &mut S) {
+    let mut failures: Vec<String> = Vec::new();
+    let mut inner = NativeScripts::new();
+    inner.add(&native_script(1)); inner.add(&native_script(2));
+    let compound: Vec<NativeScript> = vec![NativeScript::new_script_all(&ScriptAll::new(&inner)), NativeScript::new_script_any(&ScriptAny::new(&inner)),
+                                           NativeScript::new_script_n_of_k(&ScriptNOfK::new(1, &inner)), native_script(3)];
+    for (k, built) in compound.iter().enumerate() {
+        let decoded = NativeScript::from_bytes(built.to_bytes()).unwrap();
+        let from_json = NativeScript::from_json(&built.to_json().unwrap()).unwrap();
+        if *built != decoded || built.to_bytes() != decoded.to_bytes() { failures.push(format!("native script {}: decoding its own bytes gives a different script", k)); continue; }
+        let mut scripts = NativeScripts::new();
+        scripts.add(built); scripts.add(&decoded); scripts.add(&from_json); scripts.add(&decoded);
+        let mut ws = TransactionWitnessSet::new();
+        ws.set_native_scripts(&scripts);
+        let emitted = TransactionWitnessSet::from_bytes(ws.to_bytes()).unwrap().native_scripts().map(|x| x.len()).unwrap_or(0);
+        if emitted != 1 { failures.push(format!("native script {}: the same script offered as built / decoded / from JSON is emitted {} times by the typed setter", k, emitted)); }
+        // the builder: an input locked by the script (built copy) and a mint under the same script (decoded copy)
+        let mut tb = TransactionBuilder::new(&config(true));
+        let mut ib = TxInputsBuilder::new();
+        ib.add_native_script_input(&NativeScriptSource::new(built), &TransactionInput::new(&TransactionHash::from([7u8; 32]), 0), &Value::new(&bn(10_000_000)));
+        tb.set_inputs(&ib);
+        let mut mb = MintBuilder::new();
+        if mb.add_asset(&MintWitness::new_native_script(&NativeScriptSource::new(&decoded)), &AssetName::new(vec![1]).unwrap(), &Int::new_i32(1)).is_ok() {
+            tb.set_mint_builder(&mb);
+            tb.set_fee(&bn(300_000));
+            if let Ok(tx) = tb.build_tx_unsafe() {
+                let n = TransactionWitnessSet::from_bytes(tx.witness_set().to_bytes()).unwrap().native_scripts().map(|x| x.len()).unwrap_or(0);
+                if n != 1 { failures.push(format!("native script {}: shared by an input and a mint, the builder emits it {} times", k, n)); }
+            }
+        }
+    }
+    // Plutus scripts: built and decoded copies through the typed setter
+    for (k, ps) in [PlutusScript::new(vec![1, 2, 3]), PlutusScript::new_v2(vec![4, 5, 6]), PlutusScript::new_v3(vec![7, 8])].iter().enumerate() {
+        let mut list = PlutusScripts::new();
+        list.add(ps); list.add(&ps.clone()); 
+        list.add(&PlutusScript::from_bytes_with_version(ps.to_bytes(), &ps.language_version()).unwrap());
+        let mut ws = TransactionWitnessSet::new();
+        ws.set_plutus_scripts(&list);
+        let n = TransactionWitnessSet::from_bytes(ws.to_bytes()).unwrap().plutus_scripts().map(|x| x.len()).unwrap_or(0);
+        if n != 1 { failures.push(format!("plutus script {}: offered three times (built / cloned / decoded) it is emitted {} times", k, n)); }
+    }
+    assert!(failures.is_empty(), "{} scripts are emitted more than once; first: {}", failures.len(), failures[0]);
+}
+
+/// C18: every reference a script-locked input declares (script by reference, datum by reference) is among the body's reference
+/// inputs — also when several inputs are locked by the same script and declare different references
+pub fn c18_ref_inputs<S: Src>(_s: &mut S) {
+    let mut failures: Vec<String> = Vec::new();
+    let script = PlutusScript::new_v2(vec![7u8; 40]);
+    let txin = |x: u8| TransactionInput::new(&TransactionHash::from([x; 32]), 0);
+    let red = || Redeemer::new(&RedeemerTag::new_spend(), &bn(0), &PlutusData::new_bytes(vec![1]), &ExUnits::new(&bn(1000), &bn(100000)));
+    let locked = |x: u8| TransactionUnspentOutput::new(&txin(x), &TransactionOutput::new(&EnterpriseAddress::new(0, &Credential::from_scripthash(&script.hash())).to_address(), &Value::new(&bn(20_000_000))));
+    // variant 0: script by one reference, a datum reference per input; 1: inline script + datum first, datum reference later; 2: one script through two outpoints
+    for variant in 0..3u8 {
+        let mut ib = TxInputsBuilder::new();
+        let mut expected: Vec<TransactionInput> = Vec::new();
+        for i in 0..3u8 {
+            let src = match variant {
+                0 => { let r = txin(100); if i == 0 { expected.push(r.clone()); } PlutusScriptSource::new_ref_input(&script.hash(), &r, &Language::new_plutus_v2(), 40) }
+                1 => PlutusScriptSource::new(&script),
+                _ => { let r = txin(110 + i); expected.push(r.clone()); PlutusScriptSource::new_ref_input(&script.hash(), &r, &Language::new_plutus_v2(), 40) }
+            };
+            let datum = match (variant, i) {
+                (0, _) | (1, 1) | (1, 2) => { let r = txin(150 + i); expected.push(r.clone()); DatumSource::new_ref_input(&r) }
+                _ => DatumSource::new(&PlutusData::new_bytes(vec![i])),
+            };
+            if ib.add_plutus_script_utxo(&locked(1 + i), &PlutusWitness::new_with_ref(&src, &datum, &red())).is_err() { failures.push(format!("variant {}: input {} refused", variant, i)); }
+        }
+        let mut tb = TransactionBuilder::new(&config(true));
+        tb.set_inputs(&ib);
+        tb.set_fee(&bn(2_000_000));
+        match tb.build_tx_unsafe() {
+            Ok(tx) => {
+                let refs = tx.body().reference_inputs();
+                for e in &expected {
+                    let found = refs.as_ref().map(|r| (0..r.len()).any(|k| r.get(k).to_bytes() == e.to_bytes())).unwrap_or(false);
+                    if !found { failures.push(format!("variant {}: the reference input {} declared by a script-locked input is not among the body's reference inputs", variant, e.to_hex())); }
+                }
+            }
+            Err(_) => failures.push(format!("variant {}: build failed", variant)),
+        }
+    }
+    assert!(failures.is_empty(), "{} declared reference inputs are missing from the body; first: {}", failures.len(), failures[0]);
 }
 
 // ---------------------------------------------------------------- C07 / C19: the collateral return meets the minimum ADA of ITS OWN output
